@@ -6,6 +6,10 @@
 //@ fragment: ADDEN :: src/debugger/breakpoint.rs :: impl BreakpointRegistry / fn add_and_enable :: `if let Some(existed) = self.breakpoints.get(&brkpt.addr) {` .. `brkpt.enable()?;`
 //@ harness: name=c02_add_and_enable prop=C02 unit=C02.add_and_enable mode=complete fn="BreakpointRegistry::add_and_enable (disable-existing-then-enable statements)"
 //@ assume: C02.add_and_enable: the registry's HashMap<RelocatedAddress, Breakpoint> is replaced by a one-slot map with the same `get` signature (std HashMap is outside CBMC's reach)
+//@ anchor: src/debugger/breakpoint.rs :: impl BreakpointRegistry / fn decrease_companion_rc
+//@ fragment: COMPRC :: src/debugger/breakpoint.rs :: impl BreakpointRegistry / fn decrease_companion_rc :: `if wps.len() == 1` .. `^Ok(())`
+//@ harness: name=c14_companion_rc prop=C14 unit=C14.companion_rc mode=bounded bound="at most 3 watchpoints share one end-of-scope breakpoint" fn="BreakpointRegistry::decrease_companion_rc (reference-count decision)" timeout=600
+//@ assume: C14.companion_rc: `self.remove_by_num` is replaced by a recorder; the companion is found by `values_mut().find(..)` over a std HashMap (not verified)
 //@ harness: name=c02_enable prop=C02 unit=C02.patch.enable mode=complete fn="Breakpoint::enable"
 //@ harness: name=c02_disable prop=C02 unit=C02.patch.disable mode=complete fn="Breakpoint::disable"
 //@ harness: name=c02_roundtrip prop=C02 unit=C02.patch.roundtrip mode=complete fn="Breakpoint::enable, Breakpoint::disable"
@@ -147,10 +151,10 @@ fn c02_reenable() {
 
 
 // ---- replacing a breakpoint at an address that is already patched (first statements of add_and_enable)
-struct OneSlotMap { slot: Option<Breakpoint> }
+struct OneSlotMap { slot: Breakpoint }
 impl OneSlotMap {
     fn get(&self, addr: &RelocatedAddress) -> Option<&Breakpoint> {
-        match &self.slot { Some(b) if b.addr == *addr => Some(b), _ => None }
+        if self.slot.addr.as_usize() == addr.as_usize() { Some(&self.slot) } else { None }
     }
 }
 struct RegistryShim { breakpoints: OneSlotMap }
@@ -174,15 +178,72 @@ fn c02_add_and_enable() {
     let r0 = existed.enable();
     assert!(r0.is_ok(), "C02.add_and_enable.E0");
     assert!(existed.saved_data.get() as u64 == orig & 0xff && mem() == (orig & !0xff) | 0xCC, "C02.add_and_enable.E0a the first breakpoint is armed and holds the original byte");
-    let reg = RegistryShim { breakpoints: OneSlotMap { slot: Some(existed) } };
+    let reg = RegistryShim { breakpoints: OneSlotMap { slot: existed } };
     let fresh = Breakpoint::new_linker_map(RelocatedAddress::from(addr), Pid::from_raw(1));
     let r1 = reg.add_and_enable_prefix(&fresh);
     assert!(r1.is_ok(), "C02.add_and_enable.E0");
-    assert!(unsafe { WRITES } == 3 && unsafe { READS } == 3, "C02.add_and_enable.E0b the old breakpoint was disabled (one peek/poke) before the new one was armed (one peek/poke)");
+    assert!(reg.breakpoints.get(&fresh.addr).is_some(), "C02.add_and_enable.DBG1 map finds the existing breakpoint");
+    assert!(unsafe { READS } == 3, "C02.add_and_enable.DBG2 three peeks");
+    assert!(unsafe { WRITES } == 3, "C02.add_and_enable.E0b the old breakpoint was disabled (one peek/poke) before the new one was armed (one peek/poke)");
     assert!(mem() & 0xff == 0xCC && mem() & !0xff == orig & !0xff, "C02.add_and_enable.E1 the address stays patched with INT3, other bytes untouched");
     assert!(fresh.saved_data.get() as u64 == orig & 0xff, "C02.add_and_enable.E2 the replacing breakpoint saved the ORIGINAL instruction byte, not the old patch");
     let r2 = fresh.disable();
     assert!(r2.is_ok() && mem() == orig, "C02.add_and_enable.E3 removing the replacing breakpoint restores the original word");
     assert!(!unsafe { FOREIGN }, "C02.add_and_enable.E4 no other address touched");
     core::mem::forget((r0, r1, r2, reg, fresh));
+}
+
+
+// ---- reference counting of the end-of-scope companion breakpoint (decision statement of decrease_companion_rc)
+struct CompanionRec { r#type: BrkptType }
+struct RemoveRec { removed: Option<u32> }
+impl RemoveRec {
+    fn remove_by_num(&mut self, number: u32) -> Result<Option<()>, Error> { self.removed = Some(number); Ok(None) }
+    fn decide(&mut self, companion: &mut CompanionRec, num: u32, target_wp_num: u32) -> Result<(), Error> {
+        let BrkptType::WatchpointCompanion(wps) = &companion.r#type else { panic!("not a watchpoint companion") };
+        /*@@FRAGMENT:COMPRC*/
+        Ok(())
+    }
+}
+
+#[kani::proof]
+#[kani::unwind(6)]
+fn c14_companion_rc() {
+    let n: usize = kani::any();
+    kani::assume(n >= 1 && n <= 3);
+    let ws: [u32; 3] = kani::any();
+    kani::assume(ws[0] != ws[1] && ws[0] != ws[2] && ws[1] != ws[2]); // watchpoint numbers are unique
+    let ti: usize = kani::any();
+    kani::assume(ti < n);
+    let target = ws[ti];
+    let mut v = Vec::with_capacity(3);
+    let mut k = 0;
+    while k < 3 { if k < n { v.push(ws[k]); } k += 1; }
+    let mut comp = CompanionRec { r#type: BrkptType::WatchpointCompanion(v) };
+    let num: u32 = kani::any();
+    let mut reg = RemoveRec { removed: None };
+    let r = reg.decide(&mut comp, num, target);
+    assert!(r.is_ok(), "C14.companion_rc.E0");
+    core::mem::forget(r);
+    if n == 1 {
+        assert!(reg.removed == Some(num), "C14.companion_rc.E1 the end-of-scope breakpoint is removed with its last watchpoint");
+    } else {
+        assert!(reg.removed.is_none(), "C14.companion_rc.E2 the end-of-scope breakpoint stays while another watchpoint of the scope needs it");
+        match &comp.r#type {
+            BrkptType::WatchpointCompanion(left) => {
+                assert!(left.len() == n - 1, "C14.companion_rc.E3 exactly the removed watchpoint is dropped from the companion");
+                let mut j = 0;
+                let mut idx = 0;
+                while j < 3 {
+                    if j < n && j != ti {
+                        assert!(left[idx] == ws[j], "C14.companion_rc.E4 the other watchpoints stay registered, in order");
+                        idx += 1;
+                    }
+                    j += 1;
+                }
+            }
+            _ => panic!("C14.companion_rc.E3 exactly the removed watchpoint is dropped from the companion"),
+        }
+    }
+    core::mem::forget(comp);
 }
